@@ -204,6 +204,9 @@ func (g *gen) callOp(m int, s StubInfo, hangP, errP float64) *Op {
 		if g.chance(0.15) {
 			op.QF.NeedServer = members[g.r.IntN(n)]
 			op.QF.Threshold = 1 + g.r.IntN(n)
+		} else if g.chance(0.2) {
+			// a quorum function that is not monotone: a quorum is exactly k replies
+			op.QF.Exactly = true
 		}
 	}
 	return op
